@@ -12,14 +12,14 @@ ID = "C08"
 LEVEL = "exploration"
 RULE = ("attribute trees with 2..8 distinct values per key (incl. the empty extension and entries directly in the "
         "root) x one or two grouping keys from ext, dir, is_dir, mode, uid, length(name) (always selected) x aggregate "
-        "lists as in C07, each aggregate plain or inside a scalar function (concat, lower, upper - wrappers the check can strip) x optional WHERE x optional ORDER BY on a selected key or plain integer aggregate (asc/desc). "
+        "lists as in C07, each aggregate plain or inside a scalar function (concat, lower, upper - wrappers the check can strip) x optional WHERE x optional ORDER BY on a key or a plain aggregate - integer or fractional, displayed or not (asc/desc). "
         "Oracle: the ungrouped non-aggregate run gives (key tuple, inner values) per entry; the model partitions by "
         "displayed key text: same set of key tuples, one row per key, per-group aggregates equal the reference, "
         "sum of group COUNTs/SUMs equals the ungrouped aggregate query, a sample of groups is re-obtained with "
         "`where key = 'value'` and no GROUP BY, ORDER BY sorts the group rows (integers numerically, text bytewise). "
         "Non-trivial = (>= 3 groups of which one has >= 2 members) or two grouping keys.")
 ASSUMPTIONS = [
-    "order of groups without ORDER BY (hash order), ORDER BY on unselected columns and on non-integer aggregates are not asserted",
+    "order of groups without ORDER BY (hash order) is not asserted",
     "restriction queries are only issued for non-empty key values without wildcard characters",
 ]
 
@@ -52,10 +52,16 @@ def strategy_(draw, tier):
     sel = draw(st.permutations(sel))
     order = None
     if draw(st.booleans()):
-        cands = [s for s in sel if s[0] == "k" or (aggs[s[1]]["f"] in INT_AGGS and not aggs[s[1]]["wrap"])]
+        cands = [s for s in sel if s[0] == "k" or not aggs[s[1]]["wrap"]]
         if cands:
-            order = {"item": list(draw(st.sampled_from(cands))), "desc": draw(st.booleans()),
-                     "positional": draw(st.sampled_from([False, False, True]))}
+            item = list(draw(st.sampled_from(cands)))
+            order = {"item": item, "desc": draw(st.booleans()), "positional": draw(st.sampled_from([False, False, True]))}
+            # "keys need not be selected": an aggregate may be ordered by without being displayed
+            # (another aggregate must stay in the select list, otherwise it is no aggregate query any more)
+            if item[0] == "a" and sum(1 for x in sel if x[0] == "a") >= 2 and draw(st.sampled_from(range(2))) == 0:
+                order["unselected"] = True
+                order["positional"] = False
+                sel = [x for x in sel if tuple(x) != tuple(item)]
     return {"tree": spec, "keys": keys, "where": where, "aggs": aggs, "sel": [list(s) for s in sel], "order": order}
 
 
@@ -107,7 +113,7 @@ def check(case):
         gq = "select " + ", ".join(sel_text(case, s) for s in sel) + tail + " group by " + ", ".join(keys)
         if case["order"]:
             o = case["order"]
-            pos = [tuple(s) for s in sel].index(tuple(o["item"]))
+            pos = -1 if o.get("unselected") else [tuple(s) for s in sel].index(tuple(o["item"]))
             gq += " order by " + (str(pos + 1) if o["positional"] else sel_text(case, o["item"])) + (" desc" if o["desc"] else "")
         gq += " into list"
         grows = c05.run_rows(out, base, gq, len(sel), "C08")
@@ -188,18 +194,36 @@ def check(case):
         # ORDER BY over group rows
         if case["order"] and grows:
             o = case["order"]
-            pos = [tuple(s) for s in sel].index(tuple(o["item"]))
-            is_int = (o["item"][0] == "a") or key_is_int(keys[o["item"][1]])
+            item = tuple(o["item"])
+            is_key = item[0] == "k"
+            is_float = (not is_key) and aggs[item[1]]["f"] not in INT_AGGS
+            is_int = (not is_key and not is_float) or (is_key and key_is_int(keys[item[1]]))
+            if o.get("unselected"):
+                # the ordering value of each group comes from a second grouped query that does display it
+                oq = "select " + ", ".join(keys + [c07.agg_text(aggs[item[1]])]) + tail + " group by " + ", ".join(keys) + " into list"
+                orows = c05.run_rows(out, base, oq, len(keys) + 1, "C08")
+                omap = {tuple(r[:len(keys)]): r[len(keys)] for r in (orows or [])}
+                cells = [omap.get(kt) for kt in got_keys]
+                out.classes.append("order-by-unselected-aggregate")
+            else:
+                pos = [tuple(s) for s in sel].index(item)
+                cells = [r[pos] for r in grows]
             seq = []
-            for r in grows:
-                if is_int:
+            for c in cells:
+                if c is None:
+                    seq = None
+                    break
+                if is_int or is_float:
                     try:
-                        seq.append(int(r[pos]))
+                        seq.append(float(c) if is_float else int(c))
                     except ValueError:
                         seq = None
                         break
                 else:
-                    seq.append(r[pos].encode("utf-8", "surrogateescape"))
+                    seq.append(c.encode("utf-8", "surrogateescape"))
+            if is_float:
+                out.classes.append("order-by-fractional-aggregate")
+            is_int = is_int or is_float
             if seq is not None:
                 def sorted_under(vals):
                     return all((vals[i] >= vals[i + 1]) if o["desc"] else (vals[i] <= vals[i + 1]) for i in range(len(vals) - 1))
